@@ -26,7 +26,7 @@ ASSUMPTIONS = ["no literal contains an unpaired quote or a backslash", "a litera
 MIN_EVENTS = {"statements": 100, "run_return": 100}
 
 CLEAN = "abcdefghijklmnopqrstuvwxyzABCDEFGHIJKLMNOPQRSTUVWXYZ0123456789 _-.:;%$!?/#*&|@~+<>[]{}\""
-WORDS = ["fe80::1", "app::cache key", "a::b", "::", "queued; drop when done", "open; Create ticket first", "v2; alter nothing here", "x;CREATE y", "paid in $$", "$$", "N", "Y/N", "TYPE N", "E", "X", "B", "U&", "R", "say \"hi\" -- ok", "15\" -- diagonal", "\"quoted\" word", "CREATE", "table", "not null", "--", "select", "Primary Key", "''", "x", "a;b", "DROP TABLE t;", "NULL", "default", "-- c", "check", "key", "in", "As"]
+WORDS = ["My . Files", "a . b", " . ", "x .y", "fe80::1", "app::cache key", "a::b", "::", "queued; drop when done", "open; Create ticket first", "v2; alter nothing here", "x;CREATE y", "paid in $$", "$$", "N", "Y/N", "TYPE N", "E", "X", "B", "U&", "R", "say \"hi\" -- ok", "15\" -- diagonal", "\"quoted\" word", "CREATE", "table", "not null", "--", "select", "Primary Key", "''", "x", "a;b", "DROP TABLE t;", "NULL", "default", "-- c", "check", "key", "in", "As"]
 BAD_FEATURES = {
     "comma": [", ", ",", " ,"], "lpar": ["(", " (", "( ", "f(x", "(1"], "rpar": [")", " )", ")x", "1)", ":-)", ") "], "eq": ["=", "a=b", " = "], "tab": ["\t"],
     "nonascii": ["ï", "é", "日本", "ß", "Ж"], "blockopen": ["/*"], "blockclose": ["*/"],
@@ -320,6 +320,12 @@ def run_shard(ctx):
                 if gm != exp:
                     ctx.violation("literal_changed_in_mode:" + pos, {"gen": "word_mode", "literal": lit, "position": pos, "mode": m2, "ddl": tmpl.format(L=lit)},
                                   {"mode": m2, "expected": exp, "observed": short(gm, 200)})
+    # ... and every special word as a whole literal at every position, in the position's own mode
+    for lit in ["'" + w.replace("/*", "/ *").replace("*/", "* /") + "'" for w in WORDS if "'" not in w]:
+        for pos in positions:
+            i += 1
+            if ctx.mine(i):
+                check_case(ctx, {"gen": "word", "literal": lit, "position": pos})
     for j in range(ctx.budget(2500, 90000)):
         lit = gen_clean(rng)
         check_case(ctx, {"gen": "clean", "literal": lit, "position": rng.choice(positions)})
